@@ -649,10 +649,7 @@ func (fr *Frame) mapUpdate(in *ssa.MapUpdate) {
 	}
 	cur := fr.load(m.Origin)
 	fr.oblige("safe", "nil-map-update", safetyProps, Not(w.MpNil(cur)), in.Pos())
-	mi := w.MapInfoOfSort(cur.S)
-	dom := w.MpDom(cur)
-	nsize := Ite(Select(dom, k), w.MpSize(cur), Add(w.MpSize(cur), IntLit(1)))
-	nm := w.MkMap(mi, Store(dom, k, TTrue), Store(w.MpVal(cur), k, v), nsize, TFalse)
+	nm := mapPut(w, cur, k, v)
 	fr.store(m.Origin, nm, in.Pos())
 }
 
